@@ -119,7 +119,7 @@ fn family_of(spec: &Spec) -> String {
 
 /// Same type and alphabet, different content and different symbol frequencies: the sequence reversed, followed
 /// by a copy of its first third (a value whose node boundaries / code table differ from the first one's).
-fn reversed_spec(spec: &Spec) -> Option<Spec> {
+pub fn reversed_spec(spec: &Spec) -> Option<Spec> {
     fn grow<T: Clone>(v: &[T]) -> Vec<T> {
         let mut w: Vec<T> = v.iter().rev().cloned().collect();
         w.extend_from_slice(&v[..v.len() / 3 + 1]);
@@ -155,11 +155,50 @@ fn op_name(q: &Q) -> String {
     format!("{q:?}").split('(').next().unwrap().to_lowercase()
 }
 
+/// The value under test, however it came to be: as built (2 of 5), reloaded from its serialized form, a clone, or
+/// an existing value of the same type (other content) overwritten by `clone_from`. Falls back to the built value
+/// when a step is unavailable (those steps are C11's / C19's subject, not C18's).
+fn incarnate(spec: &Spec, life: u64) -> (Box<dyn DynDs>, &'static str) {
+    let x = spec.build();
+    match life {
+        2 => {
+            let r = catch(|| {
+                let bytes = ser_vec(x.as_ref(), 0)?;
+                x.de_from(0, &mut &bytes[..])
+            });
+            match r {
+                Ok(Ok(y)) => (y, "reloaded"),
+                _ => (x, "built"),
+            }
+        }
+        3 => match catch(|| x.clone_box()) {
+            Ok(y) => (y, "clone"),
+            Err(_) => (x, "built"),
+        },
+        4 => {
+            let r = catch(|| {
+                let mut dst = reversed_spec(spec)?.build();
+                if dst.clone_from_dyn(x.as_ref()) {
+                    Some(dst)
+                } else {
+                    None
+                }
+            });
+            match r {
+                Ok(Some(y)) => (y, "clone_from"),
+                _ => (x, "built"),
+            }
+        }
+        _ => (x, "built"),
+    }
+}
+
 pub fn exec(case: &ThrCase) -> RunOut {
     let mut out = RunOut::default();
     let mut digest = Digest::default();
     let fam = family_of(&case.spec);
-    let x = match catch(|| case.spec.build()) {
+    let life = (case.qseed >> 9) % 5;
+    let x = match catch(|| incarnate(&case.spec, life)) {
         Ok(x) => x,
         Err(_) => {
             out.count("construction_failed", 1);
@@ -168,6 +207,8 @@ pub fn exec(case: &ThrCase) -> RunOut {
             return out;
         }
     };
+    let (x, how) = x;
+    out.count(&format!("incarnation.{how}"), 1);
     out.count(&format!("type.{fam}"), 1);
     out.nontrivial = case.spec.n() > 0;
     let before = catch(|| ser_vec(x.as_ref(), 0));
@@ -273,7 +314,7 @@ pub fn exec(case: &ThrCase) -> RunOut {
             .collect();
         // the threads share a value nobody has queried yet (a second, identical construction), so that anything
         // done lazily on first use happens under the scheduler; the expected answers come from `x`
-        let fresh = catch(|| case.spec.build());
+        let fresh = catch(|| incarnate(&case.spec, life).0);
         let skip_shuttle = std::env::var("QSIM_NO_SHUTTLE").is_ok();
         if skip_shuttle {
             out.count("shuttle_phase_skipped", 1);
